@@ -157,6 +157,9 @@ static inline FockPair *fo_arrow(FockMapIt *it)
  * the Hamiltonian part" (the field Block) */
 //@struct Pomerol::HamiltonianPart only=Status,H,Block
 static inline BlockNumber HamiltonianPart_getBlockNumber(struct HamiltonianPart *self) { return self->Block; }
+//@tu src/pomerol/StatesClassification.cpp
+//@function Pomerol::BlockNumber::operator==(Pomerol::BlockNumber const&) const as BlockNumber_eq
+//@end
 //@tu src/pomerol/HamiltonianPart.cpp
 //@function Pomerol::HamiltonianPart::getMatrixElement(unsigned long, unsigned long) const as HamiltonianPart_getMatrixElement
 //@end
